@@ -2,6 +2,8 @@ import NibabelModel.Model.C02
 import NibabelModel.Generated.C02Types
 import NibabelModel.Lemmas.C02_Ideal
 import NibabelModel.Lemmas.C02_Misc
+import NibabelModel.Lemmas.C02_Tfm
+import NibabelModel.Generated.C02Caps
 /-! Props/C02 — rescaled integer storage: bounded error, no wrap-around, or a loud refusal.
 
 All statements are about the executable model `Model/C02.lean` (exact `Rat`), for ALL values, slopes, intercepts,
@@ -291,5 +293,86 @@ theorem iu2iu_exact (w : Writer) (rnd : Rat → Rat) (p32 : Nat) (o : OutT) (sh 
 
 example : iu2iuInter id 24 ⟨0, 255⟩ (0, 255) 1000 1200 = .ok (1, 1000) ∧
     iu2iuSlope .slope id ⟨0, 255⟩ (0, 255) (-200) (-3) = .ok (-1, 0) := by decide +kernel
+
+/-! ## the on-disk type chosen by the `dtype=` save argument; header bookkeeping; save histories
+
+`toFileMap c rnd p32 i h arg data` models `img.to_file_map(fm, dtype=arg)` (also reached by `to_filename`, `nib.save`,
+`to_bytes`, `to_stream`) of the Analyze family for an image whose header holds data type `h.dtype` and slope /
+intercept `h.slope`, `h.inter` (`none` = NaN = "calculate").  The result is `some (observable, header afterwards)`. -/
+
+/-- DTYPE ARGUMENT ≡ HEADER DTYPE.  For a fresh or loaded image (slope / intercept NaN wherever the class has the
+    field), every class of the Analyze family, ANY data type the header held before, and either way of choosing the
+    integer on-disk type `o`, `to_file_map` produces exactly `save c … o data` — so every theorem above about `save`
+    (no wrap, error bound, NaN / inf, refusal) holds for the `dtype=` argument too — and leaves the header as it was. -/
+theorem to_file_map_eq_save (c : Cls) (hc : c ≠ .mgh) (rnd : Rat → Rat) (p32 : Nat) (i : InT) (h : Hdr)
+    (arg : Option DT) (o : OutT) (data : List Val)
+    (hs : c.caps.hasSlope = true → h.slope = none) (hi : c.caps.hasInter = true → h.inter = none)
+    (ho : effectiveOut h.dtype arg = some o) :
+    toFileMap c rnd p32 i h arg data = some (save c rnd p32 i o data, h) :=
+  toFileMap_eq_save hc rnd p32 i h arg o data hs hi ho
+
+example : toFileMap .nifti id 24 (.flt 24) ⟨.flt 24, none, none⟩ (some (.int ⟨0, 255⟩)) [.fin 0, .fin 510, .fin 5]
+    = some (.ok (2, 0, [0, 255, 2]), ⟨.flt 24, none, none⟩) := by decide +kernel
+
+/-- THE PRE-OVERRIDE HEADER DTYPE IS IRRELEVANT (also with caller-fixed scaling): two saves whose effective on-disk
+    type and slope / intercept fields agree produce the same result, whatever data type either header held and
+    whichever of the two ways selected the on-disk type. -/
+theorem to_file_map_indep_of_header_dtype (c : Cls) (rnd : Rat → Rat) (p32 : Nat) (i : InT) (h h' : Hdr)
+    (arg arg' : Option DT) (data : List Val) (hs : h.slope = h'.slope) (hi : h.inter = h'.inter)
+    (ho : effectiveOut h.dtype arg = effectiveOut h'.dtype arg') :
+    (toFileMap c rnd p32 i h arg data).map Prod.fst = (toFileMap c rnd p32 i h' arg' data).map Prod.fst :=
+  toFileMap_res_indep c rnd p32 i h h' arg arg' data hs hi ho
+
+example : effectiveOut (.flt 53) (some (.int ⟨-32768, 32767⟩)) = effectiveOut (.int ⟨-32768, 32767⟩) none := by decide
+
+/-- HEADER RESTORED: whatever happens inside `to_file_map` — success, writer refusal, header refusal, cast error —
+    the header's data type, slope and intercept afterwards are those before the call (`finally:` block). -/
+theorem to_file_map_restores_header (c : Cls) (rnd : Rat → Rat) (p32 : Nat) (i : InT) (h h' : Hdr) (arg : Option DT)
+    (data : List Val) (res : Except Err (Rat × Rat × List Int))
+    (e : toFileMap c rnd p32 i h arg data = some (res, h')) : h' = h :=
+  toFileMap_restores e
+
+example : toFileMap .analyze id 24 (.flt 24) ⟨.flt 24, none, none⟩ (some (.int ⟨0, 255⟩)) [.fin 0, .fin 510]
+    = some (.error .writer, ⟨.flt 24, none, none⟩) := by decide +kernel
+
+/-- SAVE HISTORIES: in any sequence of saves of one image (each with or without a `dtype=` override, failing or not)
+    every save gives exactly what it would give as the first save, and the header ends as it began. -/
+theorem save_history_independent (c : Cls) (rnd : Rat → Rat) (p32 : Nat) (i : InT) (data : List Val) (h hf : Hdr)
+    (args : List (Option DT)) (rs : List (Except Err (Rat × Rat × List Int)))
+    (e : saveSeq c rnd p32 i data h args = some (rs, hf)) :
+    hf = h ∧ List.Forall₂ (fun a r => toFileMap c rnd p32 i h a data = some (r, h)) args rs :=
+  saveSeq_spec c rnd p32 i data h args rs hf e
+
+example : (saveSeq .spm id 24 (.flt 24) [.fin 0, .fin 510] ⟨.flt 24, none, none⟩
+      [some (.int ⟨0, 255⟩), some (.int ⟨-32768, 32767⟩), none]).isNone = true ∧
+    (saveSeq .spm id 24 (.flt 24) [.fin 0, .fin 510] ⟨.int ⟨0, 65535⟩, none, none⟩ [some (.int ⟨0, 255⟩), none]).map
+        (fun p => (p.1.map Except.toOption, p.2))
+      = some ([some (2, 0, [0, 255]), some (1, 0, [0, 510])], ⟨.int ⟨0, 65535⟩, none, none⟩) := by decide +kernel
+
+/-- NO WRAP through `to_file_map`, every path — calculated scaling and caller-fixed scaling (slope / intercept preset
+    in the header: the array is written as it is, clipped to the shared range) alike. -/
+theorem no_wrap_to_file_map (c : Cls) (hc : c ≠ .mgh) (rnd : Rat → Rat) (p32 : Nat) (i : InT) (h h' : Hdr)
+    (arg : Option DT) (o : OutT) (data : List Val) (s b : Rat) (raws : List Int)
+    (ho : effectiveOut h.dtype arg = some o) (ho1 : o.omin ≤ 0) (ho2 : 0 ≤ o.omax) (hd : DataInType i data)
+    (e : toFileMap c rnd p32 i h arg data = some (.ok (s, b, raws), h')) : ∀ q ∈ raws, o.omin ≤ q ∧ q ≤ o.omax :=
+  toFileMap_mem hc ho ho1 ho2 hd e
+
+example : toFileMap .nifti id 24 (.flt 24) ⟨.flt 24, some 2, some 0⟩ (some (.int ⟨0, 255⟩)) [.fin (1/4), .fin (3/2), .fin 1000]
+    = some (.ok (2, 0, [0, 2, 255]), ⟨.flt 24, some 2, some 0⟩) := by decide +kernel
+
+/-- REFUSAL through the `dtype=` argument: plain Analyze refuses (`WriterError`) whenever scaling is needed for the
+    type given as the save argument, whatever the header held, and the header is left untouched. -/
+theorem refusal_dtype_arg (rnd : Rat → Rat) (p32 : Nat) (i : InT) (h : Hdr) (o : OutT) (data : List Val)
+    (hn : awScalingNeeded i o data = true) :
+    toFileMap .analyze rnd p32 i h (some (.int o)) data = some (.error .writer, h) := by
+  rw [toFileMap_eq_save (by decide) rnd p32 i h (some (.int o)) o data (by simp [Cls.caps]) (by simp [Cls.caps]) rfl]
+  rw [refusal_plain rfl hn]
+
+example : awScalingNeeded (.flt 24) ⟨-32768, 32767⟩ [.fin 0, .fin 70000] = true := by decide +kernel
+
+/-- the writer class `make_array_writer` selects from the capability flags is the one the model of `save` uses -/
+theorem make_writer_of_caps (c : Cls) : makeWriter c.caps = .ok c.writer := makeWriter_caps c
+
+example : makeWriter ⟨false, true⟩ = .error .value := by decide
 
 end Nb.C02
